@@ -310,20 +310,27 @@ def run(chk, replay=None):
     name, mod, cfg = tlc.mc("DyadAlg", consts(d, False), invariants=["ShapeClosure", "TypeSound"], properties=["Frame"],
                             constraint="DepthBound")
     chk.tlc_must_hold(name, cfg, label="DyadAlg exhaustive depth %d" % d, extra_modules={name: mod})
-    jobs = []
-    with cf.ThreadPoolExecutor(max_workers=14) as ex:
-        for k in range(len(INITS)):
-            jobs.append(ex.submit(emit, 2, None, 0, ALL_OPS, [INITS[k]]))
-            if thorough:
-                jobs.append(ex.submit(emit, 3, None, 0, [o for o in ALL_OPS if o not in ("elem", "diag", "slice")], [INITS[k]]))
-        nsim = 4000 if thorough else 300
-        for j in range(10 if thorough else 5):
-            jobs.append(ex.submit(emit, 8, nsim, chk.seed * 7 + j))
-        for j in cf.as_completed(jobs):
-            r = j.result()
-            chk.transitions += r.generated
-            chk.tlc_runs.append({"module": "DyadAlg", "label": "emit", "generated": r.generated, "wall_s": round(r.wall, 2)})
-            check_behaviours(chk, [v[0] for tag, v in r.printed if tag == "BEH"])
-
+    # emission runs are taken a few at a time and their results dropped as soon as they are replayed (memory stays bounded)
+    plan = []
+    for k in range(len(INITS)):
+        plan.append((2, None, 0, ALL_OPS, [INITS[k]]))
+        if thorough:
+            plan.append((3, None, 0, [o for o in ALL_OPS if o not in ("elem", "diag", "slice")], [INITS[k]]))
+    nsim = 2000 if thorough else 300
+    for j in range(12 if thorough else 5):
+        plan.append((8, nsim, chk.seed * 7 + j))
+    width = 5
+    for k in range(0, len(plan), width):
+        with cf.ThreadPoolExecutor(max_workers=width) as ex:
+            futs = [ex.submit(emit, *args) for args in plan[k:k + width]]
+            for j in cf.as_completed(futs):
+                r = j.result()
+                chk.transitions += r.generated
+                chk.tlc_runs.append({"module": "DyadAlg", "label": "emit", "generated": r.generated, "wall_s": round(r.wall, 2)})
+                behs = [v[0] for tag, v in r.printed if tag == "BEH"]
+                r.printed = []
+                check_behaviours(chk, behs)
+                del behs, r
+            del futs
 
 replay_fn = replay
